@@ -287,6 +287,9 @@ func optCanon(m *dns.Msg) string {
 			if e.Family == 1 {
 				a = a.To4()
 			}
+			if e.Family == 0 {
+				a = nil // no address bytes on the wire
+			}
 			parts = append(parts, fmt.Sprintf("e%d/%d/%d/%s", e.Family, e.SourceNetmask, e.SourceScope, hexTok(a)))
 		default:
 			parts = append(parts, fmt.Sprintf("c%d", op.Option()))
